@@ -32,7 +32,7 @@ KNOBS = {'pk_spelling': 'pk', 'block_comments': False}
 BAD_COLORS = ['#ab', '#abcd', '#abcde', '#abcdef0', '#ggg', '#12345g', '#', '#a']
 
 
-def payloads(kind):
+def payloads(kind, props=False):
     """applicable fault payloads for a slot kind -> list of (fault class, text)"""
     out = []
     if kind.startswith('own:'):
@@ -53,13 +53,16 @@ def payloads(kind):
     elif kind.startswith('fault:tok:'):
         out += [('bracket-dropped', 'drop'), ('bracket-doubled', 'double')]
     elif kind.startswith('fault:settings:'):
-        out += [('unknown-setting', 'unknown'), ('empty-settings', 'empty'), ('double-comma', 'dcomma'), ('trailing-comma', 'tcomma')]
+        out += [('unknown-setting', 'unknown'), ('empty-settings', 'empty'), ('double-comma', 'dcomma'), ('trailing-comma', 'tcomma'),
+                ('unknown-setting', 'unknown-kv-word'), ('unknown-setting', 'unknown-kv-number')]
+        if not props:      # `key: 'string'` is a property when arbitrary properties are enabled
+            out += [('unknown-setting', 'unknown-kv-string')]
     elif kind == 'fault:lit:indextype':
-        out += [('unknown-index-type', 'zzz'), ('unknown-index-type', 'bitmap')]
+        out += [('unknown-index-type', x) for x in ('zzz', 'bitmap', 'tree', 'btre', 'has', 'in', 'gis', 'b', 'hashh', 'btreee', 'bt ree')]
     elif kind == 'fault:lit:refop':
-        out += [('unknown-ref-operator', x) for x in ('=>', '~', '><', '->', '=')]
+        out += [('unknown-ref-operator', x) for x in ('=>', '~', '><', '->', '=', '>>', '<<', '<-', '--', '>-', '<->', '<>>', '> >')]
     elif kind == 'fault:lit:action':
-        out += [('unknown-action', 'explode'), ('unknown-action', 'set nothing')]
+        out += [('unknown-action', x) for x in ('explode', 'set nothing', 'cascad', 'no', 'set', 'restricted', 'noaction')]
     elif kind == 'fault:lit:color':
         out += [('malformed-colour', c) for c in BAD_COLORS]
     elif kind == 'fault:lit:coltype':
@@ -176,7 +179,7 @@ def run_shard(spec, tier, seed, budget_s):
             continue
         sh.count('obs.hosts')
         sh.count('obs.slots', len(slots))
-        cases = [(n, kind, fc, tx) for n, kind in enumerate(slots) for fc, tx in payloads(kind)]
+        cases = [(n, kind, fc, tx) for n, kind in enumerate(slots) for fc, tx in payloads(kind, props)]
         if len(cases) > per_host:
             # stratified sample: at least one case of every (fault class, position class) seen in this host
             rng.shuffle(cases)
